@@ -32,15 +32,30 @@ const scale = 8
 var labelNameOf = map[int]string{1: "a", 2: "b", 3: "c", 10: "hook", 11: "x", 12: "z"}
 var labelIdOf = map[string]int{"a": 1, "b": 2, "c": 3, "hook": 10, "x": 11, "z": 12}
 
+// label values: 0 is the empty string, 1 and 2 plain words; 3-6 are values whose CONTENT matters to
+// any encoding of a label tuple into one string - a value that is a prefix of another, values that
+// begin or end with a character an encoder may use as a separator (U+00FF: the key hashing writes a
+// byte 255 between values), the separator alone.  A series is identified by its exact tuple of
+// values: (a="vÿ", b="v1") and (a="v", b="ÿv1") are different series.
+var exoticVals = map[int]string{3: "v", 4: "v\u00ff", 5: "\u00ffv1", 6: "\u00ff"}
+
 func valStr(v int) string {
 	if v == 0 {
 		return ""
+	}
+	if s, ok := exoticVals[v]; ok {
+		return s
 	}
 	return "v" + strconv.Itoa(v)
 }
 func valId(s string) int {
 	if s == "" {
 		return 0
+	}
+	for id, x := range exoticVals {
+		if x == s {
+			return id
+		}
 	}
 	n, err := strconv.Atoi(strings.TrimPrefix(s, "v"))
 	if err != nil {
@@ -374,7 +389,10 @@ type schema struct {
 	group   int // disjoint mode: the single group using this name (0 = any group, label x tells groups apart)
 }
 
-type gen struct{ r *core.Rng }
+type gen struct {
+	r      *core.Rng
+	exotic bool // this history draws label values whose content matters to an encoding of the tuple
+}
 
 func ip(x int) *int { return &x }
 
@@ -392,14 +410,24 @@ func (g *gen) value(kind int, fractions bool) int {
 	return v
 }
 
+// labelValue: a value id for label name n
+func (g *gen) labelValue(n int, emptyPct int) int {
+	v := 1 + g.r.Intn(2)
+	if g.r.Chance(emptyPct) {
+		v = 0
+	}
+	if g.exotic && (n == 1 || n == 2 || n == 11 || n == 12) && g.r.Chance(75) {
+		// a and b, x and z are neighbours in label-name order
+		v = []int{1, 3, 4, 5, 6}[g.r.Intn(5)]
+	}
+	return v
+}
+
 func (g *gen) subsetLabels(pool []int, emptyPct int) [][2]int {
 	ls := [][2]int{}
 	for _, n := range pool {
-		if g.r.Chance(45) {
-			v := 1 + g.r.Intn(2)
-			if g.r.Chance(emptyPct) {
-				v = 0
-			}
+		if g.r.Chance(45) || g.exotic && (n == 1 || n == 2) && g.r.Chance(70) {
+			v := g.labelValue(n, emptyPct)
 			ls = append(ls, [2]int{n, v})
 		}
 	}
@@ -450,6 +478,7 @@ func (g *gen) invalidOp() Op {
 // history builds an in-domain history. collide: groups may share (name, labels);
 // fractions: dyadic fractions occur.
 func (g *gen) history(nBatches int, collide, fractions bool) Input {
+	g.exotic = g.r.Chance(25)
 	sch := map[int]*schema{}
 	for n := 1; n <= 6; n++ {
 		s := &schema{kind: 1 + g.r.Intn(2), grouped: g.r.Chance(65)}
@@ -505,10 +534,7 @@ func (g *gen) history(nBatches int, collide, fractions bool) Input {
 			} else {
 				o = Op{Name: n, Labels: [][2]int{}}
 				for _, ln := range s.names {
-					v := 1 + g.r.Intn(2)
-					if g.r.Chance(15) {
-						v = 0
-					}
+					v := g.labelValue(ln, 15)
 					o.Labels = append(o.Labels, [2]int{ln, v})
 				}
 			}
@@ -587,6 +613,12 @@ func Corpus() []Input {
 			{Group: 2, Name: 2, Action: "add", Value: ip(24), Labels: lbl(2, 1)}, {Name: 3, Action: "add", Value: ip(12), Labels: lbl(1, 1)}}},
 			Batch{1, []Op{{Group: 1, Name: 1, Action: "set", Value: ip(40), Labels: lbl(1, 2, 2, 1)}, {Name: 3, Action: "add", Value: ip(4), Labels: lbl(1, 1)}}},
 			Batch{2, []Op{{Group: 2, Action: "expire"}}}),
+		// label values whose content matters to any one-string encoding of the tuple: ("vÿ","v1") and ("v","ÿv1") are
+		// two series of one group; another group reports the second tuple; a counter with both
+		j(Batch{1, []Op{{Group: 1, Name: 1, Action: "set", Value: ip(8), Labels: lbl(1, 4, 2, 1)}, {Group: 1, Name: 1, Action: "set", Value: ip(16), Labels: lbl(1, 3, 2, 5)},
+			{Group: 2, Name: 2, Action: "add", Value: ip(8), Labels: lbl(1, 4, 2, 1)}, {Group: 2, Name: 2, Action: "add", Value: ip(8), Labels: lbl(1, 3, 2, 5)}}},
+			Batch{2, []Op{{Group: 3, Name: 1, Action: "set", Value: ip(24), Labels: lbl(1, 3, 2, 5, 11, 6)}}},
+			Batch{2, []Op{{Group: 3, Action: "expire"}}}),
 		// an invalid operation anywhere rejects the whole batch
 		j(Batch{1, []Op{{Group: 1, Name: 1, Set: ip(8), Labels: lbl(1, 1)}}},
 			Batch{1, []Op{{Group: 1, Name: 1, Set: ip(16), Labels: lbl(1, 2)}, {Name: 2, Action: "add", Value: ip(8)}, {Name: 3, Action: "bogus", Value: ip(8)}}},
